@@ -165,11 +165,16 @@ func writeJournal(id string, caseJSON []byte) {
 func safely[C any](check func(C) (Outcome, error), c C) (out Outcome, err error) {
 	defer func() {
 		if x := recover(); x != nil {
-			st := string(debug.Stack())
-			if len(st) > 1800 {
-				st = st[:1800]
+			var keep []string
+			for _, l := range strings.Split(string(debug.Stack()), "\n") {
+				if strings.Contains(l, "Trisia/randomness") || strings.Contains(l, "/repo/") {
+					keep = append(keep, strings.TrimSpace(l))
+				}
+				if len(keep) >= 8 {
+					break
+				}
 			}
-			err = violation("panic", "panic: %v\n%s", x, st)
+			err = violation("panic", "panic: %v\n  at %s", x, strings.Join(keep, "\n     "))
 		}
 	}()
 	return check(c)
